@@ -713,6 +713,9 @@ func (v Value) convert(t Type) (res Value) {
 		if v.t.base() == TypeSlice {
 			return v
 		}
+		if v.t == TypeNil { // []int(nil)
+			return Value{t: TypeSlice}
+		}
 		data := []byte(v.String())
 		s := make([]Value, len(data))
 		for k, v := range data {
